@@ -618,7 +618,8 @@ class ExprMixin(object):
                     fail(n, 'allocation initialised from %s' % type(src.init).__name__)
                 self.copy_value(dst.target, src.init, n)
             else:
-                self.notes.append('default-constructed allocation: contents left unspecified')
+                # make_unique<T>() / new T(): value-initialised by T's default member initialisers / default constructor
+                self.default_construct(dst.target, n)
             return
         if isinstance(dst, PtrSlot):
             if isinstance(src, Obj):
